@@ -472,6 +472,11 @@ class World(WsWorld):
                 else:
                     if chs > 0 and self.cfg["scdt"] > 0:
                         bound = chs + self.cfg["scdt"]
+                    elif chs == 0 and self.cfg["scdt"] > 0 and st != 0 and len(ep.rx_close_frames) > 0 and ep.monitor.close_count >= 1 \
+                            and all(peer_close_validity(pl) == "valid" for pl in ep.rx_close_frames):
+                        # no limit on the peer's answer, but one on how long the server may keep TCP open after the close
+                        # frames were exchanged: the drain has let far more than that pass
+                        run.violate("C05.closed-in-bound", "never-closed:client:close-frames-exchanged:closeHandshakeTimeout=0", ep.name)
                 if bound is not None:
                     if st != 0:
                         run.violate("C05.closed-in-bound", "never-closed:%s:closedByMe=%s" % (
